@@ -520,7 +520,14 @@ func (e *ksEnv) runReset(t *testing.T, op KSOp, ch sim.Chooser, now func() int, 
 		<-p.done
 	}
 	tr.Flush()
-	tr.Add("ResetEnd", "err", errS(resetErr), "ts", now())
+	tr.Add("ResetEnd", "err", errS(resetErr), "cancelled", cancelled, "ts", now())
+	if !closedKS {
+		// what the keystore holds now (a cancellation that arrives late may or may not
+		// have let the swap happen, whatever ResetCids returned)
+		all, err := rks.Get(context.Background(), bitstr.Key(""))
+		sz, err2 := rks.Size(context.Background())
+		tr.Add("Observe", "content", ksIdx(all), "ndup", len(all), "size", sz, "err", err != nil || err2 != nil, "ts", now())
+	}
 	if closedKS {
 		synctest.Wait()
 		if err := e.open(t); err != nil {
